@@ -14,6 +14,8 @@ the other tenants' requests removed and compares what each tenant observes.
 * `C10_write_frame_insert/_delete/_update/_batchDeleteIds/_batchDeleteFilter/_bulkInsert/_bulkLoad`: a write / delete /
   update / batch delete (ids or any filter) / BulkInsert stream of tenant B leaves every read of a tenant A with another
   index unchanged (found / not-found included);
+* `C10_noninterference` / `_from_start`: over whole histories of the id-addressed RPCs, what a tenant observes equals what
+  it observes with every other tenant's requests removed (unwinding: `Lemmas/TenantNI.lean`);
 * `C10_filter_blind_to_reserved`, `C10_reserved_filter_refused_search/_batchDelete`: a client filter naming a
   server-owned key is refused; any other filter gives the same verdict on the stored and on the public metadata;
 * `C10_search_sound`: every search result is a document of the caller (id range, stored index,
@@ -25,6 +27,7 @@ the other tenants' requests removed and compares what each tenant observes.
   check afterwards).  Known finding KF-C10-shared-index-post-filter.
 -/
 import KyroModel.Lemmas.TenantInv
+import KyroModel.Lemmas.TenantNI
 
 namespace KyroModel.C10
 open KyroModel KyroModel.Srv
@@ -385,6 +388,55 @@ theorem C10_reserved_filter_refused_batchDelete (parse : String → Option Nat) 
     (ns : String) (h : mentionsReserved f = true) :
     Srv.batchDeleteFilter parse s t f ns = (s, .error .invalidArgument) := by
   simp [Srv.batchDeleteFilter, h]
+
+/-! ### non-interference over whole histories (id-addressed RPCs) -/
+
+/-- who issued which request -/
+abbrev Hist := List (Tn × Req)
+
+/-- the answers tenant `a` receives while the history runs -/
+def observed_by (a : Tn) (s : S) : Hist → List Resp
+  | [] => []
+  | (t, r) :: rest =>
+    if t.idx = a.idx then (handle s t r).2 :: observed_by a (handle s t r).1 rest
+    else observed_by a (handle s t r).1 rest
+
+/-- the same history with every other tenant's requests removed -/
+def purge (a : Tn) (h : Hist) : Hist := h.filter fun p => p.1.idx == a.idx
+
+/-- **Non-interference** (Insert, Delete, UpdateMetadata, Query, BulkQuery, BatchDelete by ids — any
+    mix, any length, colliding local ids, spoofed keys, any namespaces; BulkInsert streams too): what tenant `a` observes in a
+    history shared with any other tenants is exactly what it observes when their requests are removed
+    — found / not-found answers, vectors, metadata, error codes, quota refusals and deleted counts
+    included.  By unwinding: `handle_view` (output consistency + step consistency on the A-view),
+    `handle_respects` (local respect).  Search, BulkSearch, BatchDelete by filter, the bulk streams,
+    FlushHotTier and /usage are not in `Req`: see `C10_search_count_leak` and the replay oracle. -/
+theorem C10_noninterference (a : Tn) (h : Hist) (hkey : ∀ p ∈ h, p.1.idx = a.idx → p.1 = a) :
+    ∀ (s1 s2 : S), ViewEq a s1 s2 → observed_by a s1 h = observed_by a s2 (purge a h) := by
+  induction h with
+  | nil => intro _ _ _; rfl
+  | cons p rest ih =>
+    obtain ⟨t, r⟩ := p
+    intro s1 s2 hv
+    have hrest : ∀ q ∈ rest, q.1.idx = a.idx → q.1 = a := fun q hq => hkey q (List.mem_cons_of_mem _ hq)
+    by_cases ht : t.idx = a.idx
+    · have hta : t = a := hkey (t, r) (List.mem_cons_self ..) ht
+      subst hta
+      obtain ⟨e1, e2⟩ := handle_view hv r
+      simp only [observed_by, purge, List.filter_cons, beq_self_eq_true, if_true]
+      rw [e1]
+      congr 1
+      exact ih hrest _ _ e2
+    · have hne : a.idx ≠ t.idx := fun e => ht e.symm
+      have hb : (t.idx == a.idx) = false := by simpa using ht
+      simp only [observed_by, ht, if_false, purge, List.filter_cons, hb, Bool.false_eq_true]
+      exact ih hrest _ _ ((handle_respects hne s1 r).symm.trans hv)
+
+/-- from the empty server -/
+theorem C10_noninterference_from_start (a : Tn) (h : Hist) (dim : Nat)
+    (hkey : ∀ p ∈ h, p.1.idx = a.idx → p.1 = a) :
+    observed_by a { dim := dim } h = observed_by a { dim := dim } (purge a h) :=
+  C10_noninterference a h hkey _ _ (ViewEq.refl a _)
 
 /-! ### search -/
 
